@@ -79,7 +79,7 @@ func coqBool(b bool) string {
 
 func newScen(cfg bedConfig, r *rng.R) (*scen, error) {
 	// the goroutines of the previous syncer are all gone before this one is measured
-	waitUntil(2*time.Second, func() bool { return goroutines().syncer == 0 })
+	waitUntil(300*time.Millisecond, func() bool { return goroutines().syncer == 0 })
 	tb, err := newBed(cfg)
 	if err != nil {
 		return nil, err
